@@ -13,7 +13,92 @@ Theorems are about the hand ports in `Model.lean` (tied to the Rust code by corr
 run); the same spec functions (`lineSpec`, `utf16Spec`, `posOf`) are what `judgeTag` evaluates on
 the real tags.
 -/
+set_option linter.unusedSimpArgs false
 namespace TsVerif.C18
+
+/-! ## `line_range` -/
+
+/-- **line_range_spec.**  For a start byte whose row (starting at `startByte - col`) contains a
+non-whitespace byte — in particular whenever the name itself starts with one — the port of
+`line_range` returns exactly `lineSpec`: the line containing the start byte, ASCII whitespace
+trimmed at both ends, cut after at most `limit` bytes at the end of the longest well-formed UTF-8
+prefix of the first `limit` bytes (`valid_up_to`).
+The hypothesis is what the proof forces: on an all-whitespace row the code's leading trim runs
+across the newline into later lines (witness below); tags cannot name such a row. -/
+theorem line_range_spec (text : Bytes) (startByte col limit : Nat)
+    (h : ∃ b ∈ (text.drop (startByte - col)).takeWhile (· != 10), isWs b = false) :
+    lineRange text startByte col limit = lineSpec text (startByte - col) limit := by
+  rw [lineRange_core, lineSpec_core, core_eq _ _ h]
+
+/-- Non-vacuity: `"  foo \nbar"`, start byte 2 column 2 — the row contains `f`. -/
+example : ∃ b ∈ (([32, 32, 102, 111, 111, 32, 10, 98, 97, 114] : Bytes).drop (2 - 2)).takeWhile (· != 10), isWs b = false :=
+  ⟨102, by decide, by decide⟩
+
+/-- Witness for the dropped hypothesis (OPEN as a full-strength statement: `lineRange = lineSpec`
+for every row): on the all-blank first row of `" \nab"` the code answers `[2,4)`, a range on the
+NEXT row, while the trimmed first row is the empty range `[1,1)`. -/
+example : lineRange [32, 10, 97, 98] 0 0 180 = ⟨2, 4⟩ ∧ lineSpec [32, 10, 97, 98] 0 180 = ⟨1, 1⟩ := by
+  constructor <;> simp [lineRange, lineSpec, isWs, scan, stepAt, width, units]
+
+/-- **line_spec_bounds.**  `lineSpec` stays inside the row that starts at `ls0` and is at most
+`limit` bytes long. -/
+theorem line_spec_bounds (text : Bytes) (ls0 limit : Nat) :
+    let r := lineSpec text ls0 limit
+    ls0 ≤ r.s ∧ r.s ≤ r.e ∧ r.e ≤ ls0 + ((text.drop ls0).takeWhile (· != 10)).length ∧ r.e - r.s ≤ limit := by
+  simp only [lineSpec]
+  generalize (text.drop ls0).takeWhile (· != 10) = line
+  have h1 := length_takeWhile_le' isWs line
+  generalize hcut : (if (decide (line.length < (text.drop ls0).length) &&
+      decide ((line.drop (line.takeWhile isWs).length).length < limit)) = true
+      then line.drop (line.takeWhile isWs).length
+      else ((line.drop (line.takeWhile isWs).length).take limit).take
+        (scan ((line.drop (line.takeWhile isWs).length).take limit)).validUpTo) = cut
+  have hc : cut.length ≤ line.length - (line.takeWhile isWs).length ∧ cut.length ≤ limit := by
+    rw [← hcut]
+    split
+    · rename_i hc; simp at hc; simp [List.length_drop]; omega
+    · simp [List.length_take, List.length_drop]; omega
+  have hk : (cut.reverse.dropWhile isWs).length ≤ cut.length := by
+    have := length_dropWhile_le' isWs cut.reverse
+    simpa using this
+  omega
+
+/-! ## UTF-16 length (`LossyUtf8`, `utf16_len`) -/
+
+/-- **utf16_len_append_partial.**  `utf16_len` is additive when both parts are well-formed UTF-8
+(i.e. the split is a character boundary of a well-formed line).
+OPEN (false for the pinned code, see the witnesses): additivity at every character boundary with an
+arbitrary right part, which is what `utf16Spec` — the `from_utf8_lossy` reading — satisfies
+(`utf16_spec_append`). -/
+theorem utf16_len_append_partial (a b : Bytes) (ha : validUtf8 a = true) (hb : validUtf8 b = true) :
+    utf16Len (a ++ b) = utf16Len a + utf16Len b := by
+  have ha' : (scan a).err = none := by simpa [validUtf8] using ha
+  have hb' : (scan b).err = none := by simpa [validUtf8] using hb
+  have hab : (scan (a ++ b)).err = none := by rw [scan_append a b ha']; exact hb'
+  rw [utf16Len_valid _ hab, utf16Len_valid _ ha', utf16Len_valid _ hb', scan_append a b ha']
+
+example : validUtf8 [0xC3, 0xA9] = true ∧ validUtf8 [0xF0, 0x9F, 0x98, 0x80] = true := by
+  constructor <;> simp [validUtf8, scan, stepAt, width, isCont, second4ok]
+
+/-- Witnesses for the dropped hypothesis (the LossyUtf8 defect, C17): after the well-formed `"a"`,
+a lone `0xFF` is dropped (its replacement character would be the last chunk), and a truncated
+`0xE2` makes the whole chunk — the `a` included — disappear. -/
+example : utf16Len ([97] ++ [0xFF]) = 1 ∧ utf16Len [97] + utf16Len [0xFF] = 2 := by
+  constructor <;> simp [utf16Len, lossyUnits, scan, stepAt, width, isCont, units]
+example : utf16Len ([97] ++ [0xE2]) = 0 ∧ utf16Len [97] = 1 := by
+  constructor <;> simp [utf16Len, lossyUnits, scan, stepAt, width, isCont, units]
+
+/-- **utf16_spec_append.**  The spec length (lossy decoding à la `from_utf8_lossy`) is additive at
+every character boundary, whatever follows. -/
+theorem utf16_spec_append (a b : Bytes) (ha : validUtf8 a = true) :
+    utf16Spec (a ++ b) = utf16Spec a + utf16Spec b :=
+  utf16Spec_append_valid a b (by simpa [validUtf8] using ha)
+
+/-- **utf16_len_eq_spec.**  On well-formed UTF-8 the port of `utf16_len` equals the spec
+(Σ `char::len_utf16`), so the judge's `utf16Spec` and the code agree there. -/
+theorem utf16_len_eq_spec (a : Bytes) (ha : validUtf8 a = true) : utf16Len a = utf16Spec a := by
+  have ha' : (scan a).err = none := by simpa [validUtf8] using ha
+  rw [utf16Len_valid _ ha', utf16Spec_valid _ ha']
 
 /-! ## UTF-16 columns: the `prev_line_info` cache -/
 
@@ -24,12 +109,13 @@ ends of each name (`OccOK`).  Then every tag gets `utf16_column_range = f(line p
 f(line prefix ++ name)` and the `line_range` of its own row — i.e. reuse of the cached column when
 the column does not decrease, recomputation from the line start when it decreases or the row
 changes (`cache_reset_ok` is the second half made explicit). -/
-theorem cache_correct (f : Bytes → Nat) (src : Bytes) (limit : Nat) (rowLs : Nat → Nat) (os : List Occ)
-    (hos : ∀ o ∈ os, o.ls = rowLs o.row ∧ OccOK f src o) :
+theorem cache_correct (f : Bytes → Nat) (src : Bytes) (Bd : Nat → Nat → Prop) (limit : Nat)
+    (rowLs : Nat → Nat) (os : List Occ)
+    (hos : ∀ o ∈ os, o.ls = rowLs o.row ∧ OccOK f src Bd o) :
     (cacheFold f src limit none os).map (fun co => (co.u16, co.line)) =
       os.map (fun o => ((⟨f (slice src o.ls o.name.s), f (slice src o.ls o.name.e)⟩ : R),
                         lineRange src o.ls 0 limit)) :=
-  cache_fold_ok f src limit rowLs os none (fun _ h => by cases h) hos
+  cache_fold_ok f src Bd limit rowLs os none (fun _ h => by cases h) hos
 
 /-- **cache_reset_ok.**  Whatever is cached, when the row differs or the column decreased the
 start column is recomputed from the line start `name.s - column`. -/
@@ -45,6 +131,61 @@ theorem cache_reset_ok (f : Bytes → Nat) (src : Bytes) (limit : Nat) (prev : O
       simp [cacheStep, Option.filter, this]
     · have : ¬ info.pos.col ≤ sp.col := by omega
       by_cases hr : (info.pos.row == sp.row) = true <;> simp [cacheStep, Option.filter, hr, this]
+
+/-- `utf16_len` may be cut at well-formed prefixes of a line. -/
+theorem cut_ok_utf16 (src : Bytes) (ls b c : Nat) (h1 : ls ≤ b) (h2 : b ≤ c)
+    (hb : validUtf8 (slice src ls b) = true) (hc : validUtf8 (slice src ls c) = true) :
+    CutOK utf16Len src ls b c := by
+  unfold CutOK
+  have hs := slice_append src ls b c h1 h2
+  have hm : validUtf8 (slice src b c) = true := valid_suffix _ _ hb (by rw [← hs]; exact hc)
+  rw [hs, utf16_len_append_partial _ _ hb hm]
+
+/-- **cache_correct_utf16.**  The instance the property is about: if every name on the explored
+rows starts and ends at a character boundary of its row (the row prefixes up to the name's start
+and end are well-formed UTF-8; names are single-row, `o.ls = rowLs o.row`), then for tags
+processed in ANY order the cache yields
+`utf16_column_range = utf16Spec(row prefix) .. utf16Spec(row prefix ++ name)`.
+What is missing for full strength (OPEN): ill-formed prefixes (there the pinned `LossyUtf8` is not
+additive, see the witnesses above) and multi-row names (witness below). -/
+theorem cache_correct_utf16 (src : Bytes) (limit : Nat) (rowLs : Nat → Nat) (os : List Occ)
+    (hos : ∀ o ∈ os, o.ls = rowLs o.row ∧ o.ls ≤ o.name.s ∧ o.name.s ≤ o.name.e ∧
+             validUtf8 (slice src o.ls o.name.s) = true ∧ validUtf8 (slice src o.ls o.name.e) = true) :
+    (cacheFold utf16Len src limit none os).map (·.u16) =
+      os.map (fun o => (⟨utf16Spec (slice src o.ls o.name.s), utf16Spec (slice src o.ls o.name.e)⟩ : R)) := by
+  have h := cache_correct utf16Len src (fun ls c => validUtf8 (slice src ls c) = true) limit rowLs os
+    (fun o ho => by
+      obtain ⟨h0, h1, h2, h3, h4⟩ := hos o ho
+      exact ⟨h0, h1, h2, h3, cut_ok_utf16 src _ _ _ h1 h2 h3 h4,
+             fun c hc hv => cut_ok_utf16 src _ _ _ (by omega) hc h4 hv⟩)
+  have h' := congrArg (List.map Prod.fst) h
+  simp only [List.map_map] at h'
+  rw [show (fun co : CacheOut => co.u16) = Prod.fst ∘ (fun co => (co.u16, co.line)) from rfl, h']
+  apply List.map_congr_left
+  intro o ho
+  obtain ⟨_, _, _, h3, h4⟩ := hos o ho
+  simp [utf16_len_eq_spec _ h3, utf16_len_eq_spec _ h4]
+
+/-- Non-vacuity of `cache_correct_utf16`: `"é = 'é'; b"` — names `'é'` [5,9) and `b` [11,12) on row 0. -/
+example :
+    let src : Bytes := [0xC3, 0xA9, 32, 61, 32, 39, 0xC3, 0xA9, 39, 59, 32, 98]
+    ∀ o ∈ ([⟨⟨5, 9⟩, 0, 0⟩, ⟨⟨11, 12⟩, 0, 0⟩] : List Occ), o.ls = (fun _ => 0) o.row ∧ o.ls ≤ o.name.s ∧ o.name.s ≤ o.name.e ∧
+      validUtf8 (slice src o.ls o.name.s) = true ∧ validUtf8 (slice src o.ls o.name.e) = true := by
+  intro src o ho
+  simp at ho
+  rcases ho with rfl | rfl <;> simp [src, slice, validUtf8, scan, stepAt, width, isCont]
+
+/-- Witness for the dropped "single-row names" hypothesis: a name spanning rows 0–1 of
+`"(a\nb) c;"` (`[0,5)`, ending at row 1 column 2) leaves `utf16_column = 5` and the `line_range` of
+row 0 in the cache; the next name `c` at row 1 column 3 then gets column 6 instead of 3 and the
+line of row 0 instead of `[3,8)`.  (A query that captures a multi-line node as `@name` is needed
+to reach this in the real code; see notes/C18.md.) -/
+example :
+    let src : Bytes := [40, 97, 10, 98, 41, 32, 99, 59]
+    let c1 := cacheStep utf16Len src 180 none ⟨0, 5⟩ ⟨0, 0⟩ ⟨1, 2⟩
+    let c2 := cacheStep utf16Len src 180 (some c1.info) ⟨6, 7⟩ ⟨1, 3⟩ ⟨1, 4⟩
+    c2.u16 = ⟨6, 7⟩ ∧ c2.line = ⟨0, 2⟩ ∧ lineSpec src 3 180 = ⟨3, 8⟩ := by
+  simp [cacheStep, Option.filter, utf16Len, lossyUnits, slice, scan, stepAt, width, units, lineRange, lineSpec, isWs]
 
 /-! ## The tag queue -/
 
